@@ -351,7 +351,7 @@ func TestVerifC01Store(t *testing.T) {
 	alpha := c01Alphabet()
 	depth := 2
 	if vout.Thorough() {
-		depth = 3
+		depth = 4
 	}
 	res.Bound("workload_depth", depth)
 	res.Bound("alphabet", len(alpha))
